@@ -76,3 +76,4 @@ CFG['rule'] = CFG['rule'] + ' ' + 'Every pair starts with the same-name life cyc
 
 CFG['rule'] = CFG['rule'] + ' ' + 'Pairs of pattern-like ids were added ("*", "a?ice", "team[a-z]", "al*", "a.ice", "%s", "b{o,x}b" against ids they match).'
 CFG['rule'] = CFG['rule'] + ' ' + "Every pair scenario also tries a collection id that is a path into the other user's collection (create / fill / delete, then the victim reads); pairs in which one id continues the other after a separator character (: | # ; , = ~ @ +), with the attacker addressing '<rest><sep><collection>'."
+CFG['rule'] = CFG['rule'] + ' ' + "Every pair scenario searches while both users hold points under the same collection name; every distance a v2 vector search reports is compared with the distance from the query to the returned point's own vector (small integers, exact; code 106)."
